@@ -31,6 +31,16 @@ CHECKS = {
             "on fixed configurations + Hypothesis-generated histories, real Grid vs numpy model after every step",
             "Histories up to the stated length are decided exhaustively on three configurations; longer "
             "histories and other configurations by generated search.", "3/C04", MPI_NOTE),
+    "C07": ("property-based testing (Hypothesis): every evaluation entry point vs scipy.interpolate.BSpline on the "
+            "knot vector the path uses (reference cross-checked by an own Cox-de Boor recursion)",
+            "Generated spaces x coefficient vectors x boundary-focused points; differential against an independent "
+            "evaluator with derived tolerances.", "3/C07", NUM_NOTE),
+    "C08": ("property-based testing (Hypothesis): round trip through an independent evaluator, independent dense "
+            "collocation solve, polynomial reproduction (metamorphic/exact-solution oracle)",
+            "Generated spaces x data incl. badly scaled and complex; condition-aware tolerance.", "3/C08", NUM_NOTE),
+    "C09": ("property-based testing (Hypothesis): quadrature weights and basis integrals vs exact Gauss-Legendre "
+            "integration of the reference basis and an independent transposed collocation solve",
+            "Generated spaces x data; exact-integral oracle.", "3/C09", NUM_NOTE),
     "C20": ("exhaustive enumeration of a finite box + Hypothesis far beyond it, brute-force divisor oracle, "
             "line-event budget for termination",
             "All triples of the box are decided (exhaustive:true for that sub-check); termination as a "
